@@ -185,6 +185,15 @@ Definition j_tosys (args : list val) (out : val) : verdict :=
 Definition is_badargs (out : val) : bool :=
   match out with VErr s => bytes_eqb s B"BADARGS" | _ => false end.
 
+(** the constants: the epoch is 1970-01-01T00:00:00Z (count 0); the range of representable UTC
+    date-times runs from the first nanosecond of the first supported day to the last of the last *)
+Definition enc_fields (dn s f : Z) : list val := let '(y, o) := yo_of_dn dn in [VInt y; VInt o; VInt s; VInt f].
+Definition exp_consts : val :=
+  let e := enc_fields EPOCH_DN 0 0 in
+  let lo := enc_fields DN_MIN 0 0 in let hi := enc_fields DN_MAX 86399 999999999 in
+  VTup [VTup (e ++ [VInt 0]); VInt 0; VTup e; VTup (lo ++ [VInt 0]); VTup (hi ++ [VInt 0]); VTup lo; VTup hi;
+        VInt SEC_MIN; VInt SEC_MAX].
+
 Definition judge (op : bytes) (args : list val) (out : val) : verdict :=
   let two (f : val -> val -> val -> verdict) := match args with [a; b] => f a b out | _ => JSkip end in
   let one (f : val -> val -> verdict) := match args with [a] => f a out | _ => JSkip end in
@@ -225,4 +234,6 @@ Definition judge (op : bytes) (args : list val) (out : val) : verdict :=
   else if op_is op "ts.naive_ofns" then one j_acc_ns
   else if op_is op "ts.systime" then j_systime args out
   else if op_is op "ts.tosys" then j_tosys args out
+  else if op_is op "ts.consts" then
+    match args with [] => judge_eq exp_consts out | _ => JSkip end
   else JSkip.
